@@ -3,6 +3,7 @@ package vir
 import (
 	"reflect"
 	"sort"
+	"strings"
 	"testing"
 
 	"pgregory.net/rapid"
@@ -76,11 +77,21 @@ func TestC52(t *testing.T) {
 		if want.Skips > 0 {
 			rec.Class("short-circuit-skipped-call")
 		}
+		for _, n := range []string{"coalesce-some-nil", "force-some-nil", "some-nil-collapsed"} {
+			if want.Notes[n] > 0 {
+				rec.Class("nested-optional:" + n)
+			}
+		}
 		if rec.WantSample(outcome) {
 			rec.Sample(outcome, map[string]any{"source": src, "expected_logs": want.Logs, "expected": want.String()})
 		}
 		for _, e := range host.Engines {
 			got := virhost.RunScript(src, e)
+			if strings.Contains(got.Fail, "ExpressionDepthLimitReachedError") {
+				// the parser's nesting limit (16) rejected the text: generator health, not a verdict
+				rec.Class("generator:parser-depth-limit")
+				return
+			}
 			if got.Fail != want.Fail {
 				rt.Fatalf("[%s] outcome differs from the reference evaluator: got %q (%v), want %q\nlogs got  %v\nlogs want %v\n%s",
 					e, got.Fail, got.Err, want.Fail, got.Logs, want.Logs, src)
